@@ -36,6 +36,23 @@ pub fn stream_file(name: &str) -> Vec<u8> {
         "bcf_raw" => gen::own_bcf(&cols, &recs),
         "bcf_gz" => gen::bgzf_chunks(&gen::own_bcf(&cols, &recs), 256),
         "empty" => Vec::new(),
+        // larger than the reader's 64 KiB look-ahead: a cohort of 100 samples x 2200 records
+        "big_vcf" | "big_vcf_gz" | "big_bcf_gz" => {
+            let (bcols, btext) = crate::fam_container::cohort_vcf(4242, 100, 2200, 8, 1);
+            match name {
+                "big_vcf" => btext.into_bytes(),
+                "big_vcf_gz" => gen::bgzf_chunks(btext.as_bytes(), 30000),
+                _ => {
+                    // parse the text back into records for the BCF encoder
+                    let recs: Vec<gen::Rec> = btext.lines().filter(|l| !l.starts_with('#')).map(|l| {
+                        let f: Vec<&str> = l.split('\t').collect();
+                        gen::Rec { contig: f[0].into(), pos: f[1].parse().unwrap(), bad: false,
+                            gt: bcols.iter().cloned().zip(f[9..].iter().map(|s| s.to_string())).collect() }
+                    }).collect();
+                    gen::bgzf_chunks(&gen::own_bcf(&bcols, &recs), 20000)
+                }
+            }
+        }
         "w_text" | "w_npy" => {
             let scs = Scs::new((0..15).map(|i| i as f64 * 1.25).collect::<Vec<_>>(), vec![5usize, 3]).unwrap();
             let mut out = Vec::new();
